@@ -201,7 +201,9 @@ def parseInit (toks : List String) : Option HistState :=
   | [ts, fee, proto, price, fgA, fgB, r0, r1, r2, now, _mode] => do
     let price ← price.toNat?
     let now ← now.toNat?
-    let rw (x : String) : Option RewardInfo := do pure { growth := (← x.toNat?) }
+    let rw (x : String) : Option RewardInfo := do
+      let g ← x.toNat?
+      pure { growth := g, initialized := g != 0 }
     pure { pool := { ts := (← ts.toNat?), feeRate := (← fee.toNat?), protoRate := (← proto.toNat?), price := price, tick := ti price,
                      fgA := (← fgA.toNat?), fgB := (← fgB.toNat?), rewardTs := now, rewards := [← rw r0, ← rw r1, ← rw r2] },
            now := now }
